@@ -126,7 +126,12 @@ def run(ck, F, E):
                    "location is reset by reset_runtime_state and then only set to (first(), 0)",
                    "RUN no longer resets the program location before positioning at the first line", rf.span)
     ck.note("K", sorted(K))
+    import panics
+    balanced = {"Program.%s" % k: v for k, v in panics.balanced_counter_fields(F).items()}
     for f in sorted(W):
+        if f in balanced:
+            ck.ok("C10:BALANCED:%s" % f, "exemption by pairing", balanced[f] + " -- it is 0 whenever RUN starts", "", rc.span)
+            continue
         if f in EXEMPT:
             ck.ok("C10:EXEMPT:%s" % f, "exemption table", "exempt: " + EXEMPT[f], nontrivial=False)
             continue
